@@ -283,6 +283,15 @@ def walk_graph(draw, nmax):
             n = draw(st.integers(3, nmax))
             A = draw(gen.er_adj(n, False)) | gen.path_adj(n)
     n = len(A)
+    if not directed and draw(st.integers(0, 5)) == 0:
+        # two dense groups joined by one very weak connection: the second eigenvalue of the walk is within 1e-5 of 1
+        a, b = draw(st.integers(3, 5)), draw(st.integers(3, 5))
+        W = gen.block_diag(gen.complete_adj(a), gen.complete_adj(b)).astype(float)
+        W[a - 1, a] = W[a, a - 1] = draw(st.sampled_from([2.0 ** -20, 2.0 ** -18]))
+        n = a + b
+        if draw(st.booleans()):
+            W = gen.apply_perm(W, draw(gen.perm(n)))
+        return W, "nearly-disconnected"
     if draw(st.booleans()):
         A = gen.apply_perm(A, draw(gen.perm(n)))
     W = draw(gen.weights_for(A, draw(st.sampled_from(["bin", "dyadic", "float"])), directed))
@@ -330,6 +339,11 @@ def cases(draw, measures):
     if m == "subgraph" and draw(st.integers(0, 2)) == 0:
         # a wide spectrum (a heavy or large dense core) next to nodes that carry no weight of the leading eigenvector
         # (another component, an isolated node, the far end of a tail)
+        if draw(st.integers(0, 3)) == 0:
+            # heavy weights on a two-colourable network: eigenvalues +-2w with 2w < 709 < 4w, the values themselves stay finite (~1e170)
+            k = draw(st.integers(4, 10))
+            W = (gen.ring_adj(2 * (k // 2) + 2) if draw(st.booleans()) else gen.path_adj(k)).astype(float) * draw(st.sampled_from([200.0, 180.0, 300.0]))
+            return {"measure": m, "W": W, "family": "heavy-bipartite", "order": draw(st.sampled_from(gen.ORDERS))}
         core = draw(st.integers(5, 10))
         w = draw(st.sampled_from([9.0, 4.0, 1.0, 6.5]))
         if w == 1.0:
@@ -354,8 +368,23 @@ def cases(draw, measures):
     if m == "findwalks" and draw(st.integers(0, 2)) == 0:
         # directed networks: the entry (i, j) counts walks FROM i TO j
         n = draw(st.integers(2, 8))
-        A = draw(gen.er_adj(n, True)) if draw(st.booleans()) else draw(gen.dring_chords_adj(max(n, 3), max_chords=3))
-        return {"measure": m, "W": A.astype(float), "family": "directed", "order": draw(st.sampled_from(gen.ORDERS))}
+        sub = draw(st.sampled_from(["er", "dring", "drain"]))
+        if sub == "drain":
+            # every walk ends in a self-connected sink: the powers of the adjacency matrix stop changing without becoming zero
+            A = np.zeros((n, n), dtype=bool)
+            sinks = draw(st.integers(1, max(1, n // 3)))
+            for v in range(sinks):
+                A[v, v] = True
+            for v in range(sinks, n):
+                A[v, draw(st.integers(0, v - 1))] = True
+            A = gen.apply_perm(A, draw(gen.perm(n)))
+        else:
+            A = draw(gen.er_adj(n, True)) if sub == "er" else draw(gen.dring_chords_adj(max(n, 3), max_chords=3))
+            if draw(st.booleans()):
+                A = A.copy()
+                for v in draw(st.lists(st.integers(0, len(A) - 1), max_size=3)):
+                    A[v, v] = True
+        return {"measure": m, "W": A.astype(float), "family": "directed-" + sub, "order": draw(st.sampled_from(gen.ORDERS))}
     A, fam = draw(spectral_graph(8 if m == "findwalks" else 12))
     if m == "eigenvector" and draw(st.booleans()):
         W = draw(gen.weights_for(A, "dyadic", False)) * draw(st.sampled_from([1.0, 1.0] + gen.POW2_SCALES))
